@@ -69,6 +69,15 @@ def run(ck, a):
     ob = Ob('update/%s/count,mean,summed_variance' % tag, side + pre, z3.And(eqs), timeout=60)
     ob.meta.update(meta or {})
     ck.add(ob)
+    # definedness: the identities above are stated after clearing denominators; every denominator the code divides by must be non-zero for all
+    # admissible inputs (count > 0, weights >= 0 -- a batch of total weight ZERO is admissible after the first batch and must leave the state unchanged)
+    dens = {}
+    for kind_, dterm in ctx.defined:
+      dens[dterm.get_id()] = dterm
+    if dens:
+      obd = Ob('update/%s/every division is defined (non-zero denominators)' % tag, side + pre, z3.And([fr.formula(d_ != 0) for d_ in dens.values()]), timeout=60)
+      obd.meta.update(meta or {})
+      ck.add(obd)
     # std is observable: it must equal clip(sqrt(max(population variance, 0)), lo, hi), stated without the square root:
     #   G: lo <= std <= hi;  lo^2 <= v <= hi^2 -> std^2 == v;  v < lo^2 -> std == lo;  v > hi^2 -> std == hi   (v = max(var, 0))
     # Decided by two lemmas (L1: every radicand in std equals v -- a rational identity; L2: G with the radicand abstracted to a
